@@ -1,8 +1,40 @@
-(* C02 -- theorems follow in ForestProofs; placeholder example *)
+(* C02 — the raw view reports exactly the DIE tree stored in .debug_info. *)
 From Coq Require Import NArith List Bool.
-From Dwgrep Require Import Forest.
+From Dwgrep Require Import Forest ForestProofs.
 Import ListNotations.
 Local Open Scope N_scope.
+
+(* the rows of the raw view are the stored DIEs in section pre-order ... *)
+Theorem C02_rows_are_the_stored_dies : forall f, map r_off (raw_rows f) = map d_off (raw_entries f).
+Proof. exact raw_rows_offsets. Qed.
+(* ... each exactly once (offsets identify DIEs in a well-formed file) ... *)
+Theorem C02_each_die_once : forall f, wf f -> NoDup (map r_off (raw_rows f)).
+Proof. exact raw_rows_exactly_once. Qed.
+(* ... with the stored tag, child flag, children and attribute (name, form) list, in stored order *)
+Theorem C02_row_is_stored : forall f d,
+  r_tag (raw_row f d) = d_tag d /\ r_flag (raw_row f d) = d_flag d /\
+  r_kids (raw_row f d) = map d_off (d_kids d) /\
+  r_attrs (raw_row f d) = map (fun a => (a_name a, a_form a)) (d_attrs d).
+Proof. exact raw_row_is_stored. Qed.
+(* the parent reported for a DIE is the DIE that stores it as a child, in whichever unit it lies *)
+Theorem C02_parent_is_the_storing_die : forall f, wf f -> forall r p k,
+  In r (roots f) -> In p (preorder r) -> In k (d_kids p) -> raw_parent f (d_off k) = Some p.
+Proof. exact raw_child_has_parent. Qed.
+(* nothing is invented: a reported parent does store a child at that offset *)
+Theorem C02_parent_sound : forall r o p, parent_in r o = Some p ->
+  In p (preorder r) /\ exists k, In k (d_kids p) /\ d_off k = o.
+Proof. exact parent_in_sound. Qed.
+Print Assumptions C02_rows_are_the_stored_dies.
+Print Assumptions C02_each_die_once.
+Print Assumptions C02_row_is_stored.
+Print Assumptions C02_parent_is_the_storing_die.
+Print Assumptions C02_parent_sound.
+
+(* non-vacuity: a unit, an empty unit, a childless DIE whose abbreviation claims children *)
 Example C02_example :
-  map r_off (raw_rows [mkunit 0 4 0 (Some (Die 11 17 true 1 [] [Die 15 52 false 2 [] []; Die 17 52 false 2 [] []]))]) = [11; 15; 17].
-Proof. vm_compute. reflexivity. Qed.
+  let f := [mkunit 0 4 0 (Some (Die 11 17 true 1 [] [Die 15 11 true 2 [] []; Die 17 52 false 3 [mkattr 3 8 None] []]));
+            mkunit 30 4 0 None;
+            mkunit 41 5 0 (Some (Die 53 17 true 1 [] []))] in
+  map r_off (raw_rows f) = [11; 15; 17; 53] /\ map r_parent (raw_rows f) = [None; Some 11; Some 11; None] /\
+  map u_off (raw_units f) = [0; 41].
+Proof. vm_compute. auto. Qed.
